@@ -197,7 +197,7 @@ Definition spec_C06_partial := spec_C06_gen true.
 (** the class of D12b: a part of a comprehension raises when it is evaluated on its own *)
 Definition speculative_failure (c : xcase) : bool :=
   match py_run c with
-  | Ok (v, _) => negb (truth_of v) && match rc_run c with Err _ => true | Ok _ => false end
+  | Ok (v, _) => negb (truth_of v) && match rc_run c with Err Speculative => true | _ => false end
   | Err _ => false
   end.
 
